@@ -249,6 +249,35 @@ def arange(*args, **kw):
     return _np.arange(*args, **kw)
 
 
+def _boolify(x):
+    """SB -> bool (this is where a path forks); object arrays with SB elements -> real bool arrays."""
+    if isinstance(x, SB):
+        return bool(x)
+    if isinstance(x, _np.ndarray) and x.dtype == object:
+        out = _np.empty(x.shape, dtype=bool)
+        fi, fo = x.reshape(-1), out.reshape(-1)
+        for i in range(fi.shape[0]):
+            fo[i] = bool(fi[i])
+        return out
+    return x
+
+
+class _LogicalUfunc:
+    def __init__(self, uf):
+        self._uf = uf
+
+    def __call__(self, *args, **kw):
+        return self._uf(*[_boolify(a) for a in args], **kw)
+
+    def __getattr__(self, n):
+        return getattr(self._uf, n)
+
+
+logical_and = _LogicalUfunc(_np.logical_and)
+logical_or = _LogicalUfunc(_np.logical_or)
+logical_not = _LogicalUfunc(_np.logical_not)
+
+
 # -- linalg ---------------------------------------------------------------------
 
 class _Linalg:
@@ -347,13 +376,25 @@ def solve_unknowns(Z, b):
 # -- scipy.special stubs -------------------------------------------------------------
 
 def _sps_wrap(name, fn):
-    def f(*args):
-        if any(_has_sym(a) for a in args):
-            if any(isinstance(a, _np.ndarray) for a in args):
-                raise HarnessError('%s on symbolic arrays' % name)
+    def one(*args):
+        if any(is_sym(a) for a in args):
             if any(isinstance(a, SC) or core.is_cnum(a) for a in args):
                 return core.ufn_c(name, *args)
             return core.ufn(name, *args)
+        return fn(*args)
+
+    def f(*args):
+        arrs = [a for a in args if isinstance(a, _np.ndarray) and a.dtype == object]
+        if arrs:
+            shape = arrs[0].shape
+            out = _np.empty(shape, dtype=object)
+            fo = out.reshape(-1)
+            flat = [a.reshape(-1) if isinstance(a, _np.ndarray) else None for a in args]
+            for i in range(fo.shape[0]):
+                fo[i] = one(*[(fl[i] if fl is not None else a) for fl, a in zip(flat, args)])
+            return out
+        if any(_has_sym(a) for a in args):
+            return one(*args)
         return fn(*args)
     return f
 
@@ -373,7 +414,8 @@ class Facade:
     _over = dict(zeros=zeros, ones=ones, array=array, sqrt=sqrt, log=log_dispatch, exp=exp,
                  cos=cos, sin=sin, abs=_abs, absolute=_abs, angle=angle, conj=conj,
                  conjugate=conj, sign=sign, isscalar=isscalar, isfinite=isfinite, linalg=linalg,
-                 copy=copy, arange=arange)
+                 copy=copy, arange=arange, logical_and=logical_and, logical_or=logical_or,
+                 logical_not=logical_not)
 
     def __getattr__(self, n):
         o = Facade._over.get(n)
